@@ -14,5 +14,17 @@ struct W {
     bool operator==(const W &) const;
     int tag;
 };
+// trivially destructible, but copying goes through its own copy constructor (std::is_trivially_copyable_v is false)
+struct Tok {
+    Tok();
+    Tok(const Tok &);
+    Tok &operator=(const Tok &);
+    bool operator==(const Tok &) const;
+    int tag;
+};
+// plain data: a class type that is trivially copyable and trivially destructible
+struct Pod {
+    float x, y, z;
+};
 }
 #endif
